@@ -19,7 +19,7 @@ static void shape(vh::Case& c, ParMatrix* A) {
     if (E.rank == 0) { c.i((long long)per.size()); for (auto& v : per) for (auto x : v) c.i(x); }
 }
 
-// op codes: 0 assemble, 1 convert, 2 copy, 3 transpose, 4 add, 5 subtract, 6 to_ParBSR, 7 ParBSR->ParCSR
+// op codes: 0 assemble, 1 convert, 2 copy, 3 transpose, 4 add, 5 subtract, 6 to_ParBSR, 7 ParBSR->ParCSR, 8 ParBCOO block assembly
 static void emit(int op, int from, int to, int step, const vh::Trip& a, const vh::Trip* b, int br, int bc, int kind, ParMatrix* R)
 {
     bool want = E.want();
@@ -110,6 +110,34 @@ static void conv_case(vh::Rng& g, int it)
     }
 }
 
+// block assembly: ParBCOO filled block by block (duplicate block positions included), finalize() merges them
+static void bcoo_case(vh::Rng& g, int it)
+{
+    int cap = 2 + std::min(8, it / 4);
+    int br = g.range(1, 3), bc = g.coin(2, 3) ? br : g.range(1, 3);
+    int nbr = g.range(1, cap), nbc = (br == bc && g.coin(2, 3)) ? nbr : g.range(1, cap);
+    int style = g.coin() ? 1 : 2 + g.below(2);
+    vh::Layout LB = block_layout(g, nbr, nbc, br, bc, E.np, style);
+    int nblk = g.range(0, 3 * cap); bool dups = g.coin(2, 3);
+    std::vector<int> BI, BJ; std::vector<std::vector<double>> BV;
+    for (int k = 0; k < nblk; k++) {
+        int I, J; if (dups && k > 0 && g.coin(1, 3)) { int q = g.below(k); I = BI[q]; J = BJ[q]; } else { I = g.below(nbr); J = g.below(nbc); }
+        std::vector<double> v(br * bc); for (auto& x : v) x = g.range(-3, 3);
+        BI.push_back(I); BJ.push_back(J); BV.push_back(v);
+    }
+    vh::Trip t; t.n_rows = nbr * br; t.n_cols = nbc * bc;
+    for (int k = 0; k < nblk; k++) for (int q = 0; q < br * bc; q++) { t.r.push_back(BI[k] * br + q / bc); t.c.push_back(BJ[k] * bc + q % bc); t.v.push_back(BV[k][q]); }
+    char buf[128]; snprintf(buf, 128, "par/bcoo_assemble/b%dx%d/%dx%d/style%d/it%d", br, bc, nbr, nbc, style, it); E.about(buf);
+    int lbr = LB.rows[E.rank] / br, lbc = LB.cols[E.rank] / bc, fbr = LB.first_row[E.rank] / br, fbc = LB.first_col[E.rank] / bc;
+    ParBCOOMatrix* A = new ParBCOOMatrix(nbr, nbc, lbr, lbc, fbr, fbc, br, bc);
+    for (int k = 0; k < nblk; k++) if (BI[k] >= fbr && BI[k] < fbr + lbr) {
+        if (BJ[k] >= fbc && BJ[k] < fbc + lbc) A->on_proc->add_value(BI[k] - fbr, BJ[k] - fbc, BV[k].data());
+        else A->off_proc->add_value(BI[k] - fbr, BJ[k], BV[k].data()); }
+    A->finalize();
+    emit(8, 0, 0, 0, t, nullptr, br, bc, 10 + style, A);
+    delete A;
+}
+
 // block SpMV (C02): line format of h_c02's par_case with fmt = 4
 static void bspmv_case(vh::Rng& g, int it)
 {
@@ -152,7 +180,7 @@ int main(int argc, char** argv)
     bool conv = !(argc > 2 && !strcmp(argv[2], "bspmv"));
     vh::Rng g(E.seed * 86028121 + (conv ? 7 : 2));
     int n = E.thorough ? 200 : 50;
-    for (int it = 0; it < n; it++) { if (conv) conv_case(g, it); else bspmv_case(g, it); }
+    for (int it = 0; it < n; it++) { if (conv) { conv_case(g, it); bcoo_case(g, it); } else bspmv_case(g, it); }
     E.finish();
     MPI_Finalize();
     return 0;
